@@ -100,6 +100,7 @@ pub fn shift<const B: usize, const RB: usize, const OP: usize>(rr: usize, ra: us
     let bytes = module.glwe_shift_tmp_bytes().max(module.glwe_normalize_tmp_bytes());
     let mut arena = Buf::<16>::sym();
     assert!(bytes <= 128, "GRID ERROR: arena");
+    crate::stubs::set_arena(arena.bytes().as_ptr());
     {
         let scratch: &mut Scratch<FFT64Ref> = Scratch::<FFT64Ref>::from_bytes(&mut arena.bytes_mut()[..bytes]);
         match OP {
